@@ -1282,6 +1282,14 @@ fn into_zero_offset_run_array<R: RunEndIndexType>(
         return Ok(run_array);
     }
 
+    // A zero-length slice contains no runs. Encode it as an empty run array: a single
+    // run ending at 0 is not a valid run array and is rejected by readers.
+    if run_array.is_empty() {
+        let run_ends = PrimitiveArray::<R>::from_iter_values(std::iter::empty());
+        let values = run_array.values().slice(0, 0);
+        return RunArray::try_new(&run_ends, values.as_ref());
+    }
+
     // The physical index of original run_ends array from which the `ArrayData`is sliced.
     let start_physical_index = run_ends.get_start_physical_index();
 
